@@ -275,3 +275,37 @@ func EdgesOnValue(fn *ssa.Function, isV func(ssa.Value) bool) (pos, neg []Edge) 
 	}
 	return
 }
+
+// resultDef: one definition of a function result: either the operand of a Return, or — for named results returned through
+// their cell (bare return / defer-spilled return) — a Store into the result cell.
+type resultDef struct {
+	At  ssa.Instruction // the Return or the Store
+	Val ssa.Value
+}
+
+// resultDefs lists every definition of result idx of fn. For a return whose operand is a load of a local cell with no unique
+// reaching store, all stores into that cell are listed (plus the zero value if the cell may be returned unassigned: reported as a
+// nil Val at the Return).
+func resultDefs(fn *ssa.Function, idx int) []resultDef {
+	var out []resultDef
+	seenStore := map[*ssa.Store]bool{}
+	for _, ret := range Returns(fn) {
+		if idx >= len(ret.Results) {
+			continue
+		}
+		v := unwrapLoadFree(ret.Results[idx])
+		if ad, ok := loadOf(v); ok {
+			if al, ok := rootAddr(ad).(*ssa.Alloc); ok && al == ad {
+				for _, st := range storesInto(al) {
+					if !seenStore[st] {
+						seenStore[st] = true
+						out = append(out, resultDef{st, st.Val})
+					}
+				}
+				continue
+			}
+		}
+		out = append(out, resultDef{ret, v})
+	}
+	return out
+}
